@@ -50,6 +50,13 @@
   (and (< p e) (<= e (Str.len s)) (or (= (Str.nth s p) 101) (= (Str.nth s p) 69))
        (< (expDigitsFrom s p) e) (allDigits s (expDigitsFrom s p) e)))
 
+; an exponent could start at p: [eE] digit, or [eE][+-] digit  (longest lexeme: a decimal number that does not
+; already end in an exponent must not be followed by one)
+(define-fun expStartsAt ((s Str) (p Int)) Bool
+  (and (<= 0 p) (< (+ p 1) (Str.len s)) (or (= (Str.nth s p) 101) (= (Str.nth s p) 69))
+       (or (isDigitC (Str.nth s (+ p 1)))
+           (and (or (= (Str.nth s (+ p 1)) 43) (= (Str.nth s (+ p 1)) 45)) (< (+ p 2) (Str.len s)) (isDigitC (Str.nth s (+ p 2)))))))
+(define-fun endsInExp ((s Str) (a Int) (e Int)) Bool (exists ((p Int)) (and (<= a p) (< p e) (expHead s p e))))
 ; bytes that may occur in the text of a number token
 (define-fun numByte ((c Int)) Bool (or (isHexC c) (= c 46) (= c 120) (= c 88) (= c 43) (= c 45)))
 (define-fun-rec allNumBytes ((s Str) (a Int) (b Int)) Bool (forall ((i Int)) (=> (and (<= a i) (< i b)) (numByte (Str.nth s i)))))
@@ -146,6 +153,9 @@
     (=> (= k TokenNumber)
         (and (or (isDigitC (Str.nth q a)) (= (Str.nth q a) 46)) (allNumBytes q a e) (digitEnd q e) (<= (ndots q a e) 1)
              (numBytesOf v) (> (Str.len v) 0)
+             ; longest lexeme: an exponent that could follow a decimal number belongs to it
+             (or (and (< (+ a 1) (Str.len q)) (= (Str.nth q a) 48) (or (= (Str.nth q (+ a 1)) 120) (= (Str.nth q (+ a 1)) 88)))
+                 (endsInExp q a e) (not (expStartsAt q e)))
              ; the value: decimal spelling of the same number
              (= v (ite (and (< (+ a 1) (Str.len q)) (= (Str.nth q a) 48) (or (= (Str.nth q (+ a 1)) 120) (= (Str.nth q (+ a 1)) 88)))
                        (hexValue (Str.slice q (+ a 2) e)) (normNum (Str.slice q a e))))))))
